@@ -6,7 +6,7 @@
     paused revision. *)
 From Coq Require Import List NArith ZArith Bool Lia.
 From PKO Require Import Util Base BaseProofs Owner OwnerProofs Api ApiProofs Phase PhaseProofs TeardownProofs ObjectSet ObjectSetProofs
-  Deployment DeploymentProofs.
+  AdoptProofs Deployment DeploymentProofs.
 Import ListNotations.
 Local Open Scope N_scope.
 
@@ -153,3 +153,624 @@ Proof.
   - vm_compute. repeat split; try discriminate; auto 6.
   - vm_compute. auto 6.
 Qed.
+
+(** * Part 2: what a step can do to the set of objects an ObjectSet controls *)
+(** [no_gain id s s']: every object controlled by [id] in [s'] was controlled by it in [s]. *)
+Definition no_gain (id : oid) (s s' : store) : Prop :=
+  forall k o', lookup k s' = Some o' -> is_controller Native id o' = true ->
+               exists o, lookup k s = Some o /\ is_controller Native id o = true.
+
+Lemma no_gain_refl id s : no_gain id s s.
+Proof. intros k o H1 H2. eauto. Qed.
+Lemma no_gain_trans id a b c : no_gain id a b -> no_gain id b c -> no_gain id a c.
+Proof. intros H1 H2 k o Hl Hc. destruct (H2 _ _ Hl Hc) as (o1 & Hl1 & Hc1). eauto. Qed.
+Lemma no_gain_eq id s s' : s' = s -> no_gain id s s'.
+Proof. intros ->. apply no_gain_refl. Qed.
+
+(** Another owner: a different kind or name (ObjectSets of one world have distinct names). *)
+Definition other (id m : oid) : Prop := same_gkn (ctrl_ref m) id = false.
+
+Section OwnerLists.
+  Lemma merge_refs_in st pa x :
+    In x (merge_refs st pa) -> In x pa \/ (In x st /\ find (fun p => r_uid p =? r_uid x) pa = None).
+  Proof.
+    unfold merge_refs. intros H. apply in_app_or in H. destruct H as [H|H].
+    - apply in_map_iff in H. destruct H as (r & Hx & Hr).
+      destruct (find (fun p => r_uid p =? r_uid r) pa) as [p|] eqn:Ef.
+      + subst x. left. now apply find_some in Ef.
+      + subst x. right. auto.
+    - apply filter_In in H. now left.
+  Qed.
+
+  Lemma upsert_in (f : oref -> bool) c l p : In p (upsert_ref f c l) -> p = c \/ In p l.
+  Proof.
+    induction l as [|x l IH]; cbn; [intros [<-|[]]; now left|].
+    destruct (f x); cbn; intros [<-|H]; auto. destruct (IH H); auto.
+  Qed.
+
+  Lemma upsert_keeps (f : oref -> bool) c l p : In p l -> f p = false -> In p (upsert_ref f c l).
+  Proof.
+    induction l as [|x l IH]; [contradiction|]. intros [->|H] Hf; cbn.
+    - rewrite Hf. now left.
+    - destruct (f x); [right; exact H|right; now apply IH].
+  Qed.
+
+  Lemma same_obj_gkn r id : same_obj r id = true -> same_gkn r id = true.
+  Proof. unfold same_obj, same_gkn. rewrite !andb_true_iff. tauto. Qed.
+
+  Lemma same_gkn_trans_ctrl r id m : same_gkn r id = true -> same_gkn r m = true -> same_gkn (ctrl_ref m) id = true.
+  Proof.
+    unfold same_gkn, ctrl_ref. cbn. rewrite !andb_true_iff, !N.eqb_eq. intros [H1 H2] [H3 H4]. split; congruence.
+  Qed.
+
+  (** The owner list after adoption by [m] (ReleaseController, SetControllerReference, apply merge): nobody else controls. *)
+  Lemma adopt_no_other id m st :
+    other id m ->
+    is_controller_l id (merge_refs st (upsert_ref (fun x => same_gkn x m) (ctrl_ref m) (release_l st))) = false.
+  Proof.
+    intros Ho. destruct (is_controller_l id _) eqn:E; [|reflexivity]. exfalso.
+    unfold is_controller_l in E. apply existsb_exists in E. destruct E as (x & Hin & Hx). apply andb_true_iff in Hx. destruct Hx as [Hs Hc].
+    apply merge_refs_in in Hin. destruct Hin as [Hin|[Hin Hf]].
+    - apply upsert_in in Hin. destruct Hin as [->|Hin].
+      + apply same_obj_gkn in Hs. unfold other in Ho. congruence.
+      + unfold release_l in Hin. apply in_map_iff in Hin. destruct Hin as (r & <- & _). cbn in Hc. discriminate.
+    - (* kept from the stored list: there is a patch entry with its uid *)
+      assert (Hg : same_gkn x m = false).
+      { destruct (same_gkn x m) eqn:Eg; [|reflexivity]. apply same_obj_gkn in Hs. pose proof (same_gkn_trans_ctrl _ _ _ Hs Eg). unfold other in Ho. congruence. }
+      assert (Hd : In (demote x) (upsert_ref (fun y => same_gkn y m) (ctrl_ref m) (release_l st))).
+      { apply upsert_keeps; [unfold release_l; now apply in_map|]. now rewrite same_gkn_demote. }
+      eapply find_none in Hf; [|exact Hd]. cbn in Hf. now rewrite N.eqb_refl in Hf.
+  Qed.
+
+  Lemma merge_self_sub id st : is_controller_l id (merge_refs st st) = true -> is_controller_l id st = true.
+  Proof.
+    unfold is_controller_l. rewrite !existsb_exists. intros (x & Hin & Hx). exists x. split; [|exact Hx].
+    apply merge_refs_in in Hin. tauto.
+  Qed.
+
+  Lemma remove_first_swap_in (f : oref -> bool) l x : In x (remove_first_swap f l) -> In x l.
+  Proof.
+    induction l as [|y l IH]; cbn; [tauto|]. destruct (f y).
+    - destruct l as [|z l']; [tauto|]. intros [<-|H].
+      + right. destruct (exists_last (l := z :: l') ltac:(discriminate)) as (l0 & a & E). rewrite E, last_last. apply in_or_app. right. now left.
+      + right. destruct (exists_last (l := z :: l') ltac:(discriminate)) as (l0 & a & E). rewrite E in H |- *. rewrite removelast_last in H.
+        apply in_or_app. now left.
+    - intros [<-|H]; [now left|right; now apply IH].
+  Qed.
+
+  Lemma remove_owner_sub id m l : is_controller_l id (remove_owner_l m l) = true -> is_controller_l id l = true.
+  Proof.
+    unfold is_controller_l, remove_owner_l. rewrite !existsb_exists. intros (x & Hin & Hx). exists x. split; [|exact Hx].
+    eapply remove_first_swap_in; eauto.
+  Qed.
+End OwnerLists.
+
+Section ObjectLevel.
+  Variable force : bool.
+  Let c : cfg := {| c_flavor := FObjectSet; c_force := force |}.
+
+  Lemma key_dec (a b : okey) : {a = b} + {a <> b}.
+  Proof. destruct (okey_eqb a b) eqn:E; [left; now apply okey_eqb_spec|right; intros ->; now rewrite okey_eqb_refl in E]. Qed.
+
+  Lemma is_controller_set_rv id o rv : is_controller Native id (set_rv o rv) = is_controller Native id o.
+  Proof. reflexivity. Qed.
+
+  (** One object of a phase, reconciled by [ow]: no other owner gains control of anything. *)
+  Lemma rec_obj_no_gain id w ow prev p w' evs r :
+    reconcile_object c idw w ow prev p = (w', evs, r) -> other id (ow_id ow) -> no_gain id (w_store w) (w_store w').
+  Proof.
+    intros H Ho k o' Hl Hc.
+    destruct (key_dec k (key_of ow p)) as [->|Hne]; [|rewrite (rec_obj_frame c _ _ _ _ _ _ _ k H Hne) in Hl; eauto].
+    unfold reconcile_object in H. fold (key_of ow p) in H. cbn [c c_flavor flavor_strat] in H.
+    destruct (set_controller_l Native (ow_id ow) (k_ns (key_of ow p)) []) as [dref|] eqn:Ed; [|injection H as <- _ _; eauto].
+    assert (Hdref : dref = [ctrl_ref (ow_id ow)]).
+    { unfold set_controller_l in Ed. destruct (negb _); [discriminate|]. cbn in Ed. now injection Ed as <-. }
+    destruct (ow_paused ow). { destruct (cache_get w _); injection H as <- _ _; eauto. }
+    rewrite cur_lookup in H. destruct (lookup (key_of ow p) (w_store w)) as [cu|] eqn:El.
+    - destruct (check_adoption Native (c_force c) ow cu prev (po_cp p)); try (injection H as <- _ _; rewrite El in Hl; eauto).
+      + (* already controller: the patch carries the stored owner list *)
+        destruct (do_apply_events _ _ _ _ _ _ _ _ H) as (post & _ & Hp). destruct post as [o| |]; [|contradiction|].
+        * destruct Hp as [_ Ha]. unfold idw in Ha. destruct (api_apply_spec _ _ _ _ _ _ Ha) as (Hl' & _ & Hm). rewrite El in Hm.
+          destruct Hm as (_ & rv & ->). rewrite Hl' in Hl. injection Hl as <-. exists cu. split; [reflexivity|].
+          assert (Hc' : is_controller_l id (merge_refs (o_owners cu) (o_owners cu)) = true) by exact Hc.
+          exact (merge_self_sub _ _ Hc').
+        * destruct Hp as (_ & -> & _). unfold idw in Hl. rewrite El in Hl. eauto.
+      + (* adoption *)
+        destruct (set_controller_l Native (ow_id ow) (k_ns (key_of ow p)) (release_l (refs Native cu))) as [l|] eqn:Es;
+          [|injection H as <- _ _; rewrite El in Hl; eauto].
+        assert (Hl0 : l = upsert_ref (fun x => same_gkn x (ow_id ow)) (ctrl_ref (ow_id ow)) (release_l (o_owners cu))).
+        { unfold set_controller_l in Es. destruct (negb _); [discriminate|]. cbn [refs] in Es. rewrite find_ctrl_release in Es. now injection Es as <-. }
+        destruct (do_apply_events _ _ _ _ _ _ _ _ H) as (post & _ & Hp). destruct post as [o| |]; [|contradiction|].
+        * destruct Hp as [_ Ha]. unfold idw in Ha. destruct (api_apply_spec _ _ _ _ _ _ Ha) as (Hl' & _ & Hm). rewrite El in Hm.
+          destruct Hm as (_ & rv & ->). rewrite Hl' in Hl. injection Hl as <-. exfalso.
+          assert (Hc' : is_controller_l id (merge_refs (o_owners cu) l) = true) by exact Hc.
+          rewrite Hl0, (adopt_no_other id (ow_id ow) (o_owners cu) Ho) in Hc'. discriminate.
+        * destruct Hp as (_ & -> & _). unfold idw in Hl. rewrite El in Hl. eauto.
+    - (* created *)
+      destruct (do_apply_events _ _ _ _ _ _ _ _ H) as (post & _ & Hp). destruct post as [o| |]; [|contradiction|].
+      + destruct Hp as [_ Ha]. unfold idw in Ha. destruct (api_apply_spec _ _ _ _ _ _ Ha) as (Hl' & _ & Hm). rewrite El in Hm.
+        destruct Hm as (_ & ->). rewrite Hl' in Hl. injection Hl as <-. exfalso.
+        unfold is_controller in Hc. cbn in Hc. rewrite Hdref in Hc. cbn in Hc. rewrite orb_false_r in Hc.
+        apply andb_true_iff in Hc. destruct Hc as [Hs _]. apply same_obj_gkn in Hs. unfold other in Ho. congruence.
+      + destruct Hp as (_ & -> & _). unfold idw in Hl. rewrite El in Hl. discriminate.
+  Qed.
+End ObjectLevel.
+
+Section TeardownLevel.
+  Variable force : bool.
+  Let c : cfg := {| c_flavor := FObjectSet; c_force := force |}.
+
+  Lemma api_delete_no_gain id w k uid rv : no_gain id (w_store w) (w_store (fst (api_delete w k uid rv))).
+  Proof.
+    intros k' o' Hl Hc. destruct (key_dec k' k) as [->|Hne]; [|rewrite (api_delete_frame w k uid rv k' Hne) in Hl; eauto].
+    unfold api_delete in Hl. destruct (lookup k (w_store w)) as [cur|] eqn:El; [|cbn [fst] in Hl; rewrite El in Hl; discriminate].
+    destruct (negb _); [cbn [fst] in Hl; rewrite El in Hl; eauto|].
+    destruct (o_fin cur).
+    - destruct (o_deleting cur); [cbn [fst] in Hl; rewrite El in Hl; eauto|].
+      cbn [fst w_store] in Hl. rewrite lookup_upsert_same in Hl. injection Hl as <-. eauto.
+    - cbn [fst w_store with_store] in Hl. rewrite lookup_remove_same in Hl. discriminate.
+  Qed.
+
+  (** Teardown of one object never makes anybody a controller. *)
+  Lemma td_obj_no_gain id w ow p w' evs d :
+    teardown_object c idw w ow p = (w', evs, d) -> no_gain id (w_store w) (w_store w').
+  Proof.
+    intros H. unfold teardown_object in H. fold (key_of ow p) in H. cbn [c c_flavor flavor_strat] in H.
+    destruct (preflight_obj FObjectSet ow false p); [|injection H as <- _ _; apply no_gain_refl].
+    unfold api_get at 1 in H. destruct (lookup (key_of ow p) (w_store w)) as [cu|] eqn:El; [|injection H as <- _ _; apply no_gain_refl].
+    destruct (is_controller Native (ow_id ow) cu); cbn [negb] in H.
+    - unfold idw in H. destruct (api_delete w (key_of ow p) (o_uid cu) (o_rv cu)) as [w2 r] eqn:Ed. injection H as <- _ _.
+      pose proof (api_delete_no_gain id w (key_of ow p) (o_uid cu) (o_rv cu)) as Hg. now rewrite Ed in Hg.
+    - destruct (is_owner Native (ow_id ow) cu); cbn [negb] in H; [|injection H as <- _ _; apply no_gain_refl].
+      unfold idw in H. destruct (api_release_patch w (key_of ow p) (remove_owner_l (ow_id ow) (o_owners cu))) as [[w2 [o|]]|] eqn:Er.
+      + injection H as <- _ _. intros k o' Hl Hc.
+        destruct (key_dec k (key_of ow p)) as [->|Hne]; [|rewrite (api_release_frame _ _ _ _ _ k Er Hne) in Hl; eauto].
+        destruct (api_release_spec _ _ _ _ _ Er) as (cur & Hcur & Hl2 & _ & _ & Hown & _). rewrite Hl2 in Hl. injection Hl as <-.
+        rewrite El in Hcur. injection Hcur as <-. exists cu. split; [exact El|].
+        unfold is_controller in *. cbn [refs] in *. rewrite Hown in Hc. eapply remove_owner_sub; eauto.
+      + injection H as <- _ _. rewrite (api_release_invalid _ _ _ _ Er). apply no_gain_refl.
+      + injection H as <- _ _. apply no_gain_refl.
+  Qed.
+
+  Lemma td_objs_no_gain id ow ps : forall w alldone w' evs r,
+    teardown_objects c idw w ow ps alldone = (w', evs, r) -> no_gain id (w_store w) (w_store w').
+  Proof.
+    induction ps as [|p ps IH]; intros w alldone w' evs r H; cbn in H; [injection H as <- _ _; apply no_gain_refl|].
+    destruct (teardown_object c idw w ow p) as [[w1 e1] d] eqn:E1.
+    pose proof (td_obj_no_gain id _ _ _ _ _ _ E1) as H1.
+    destruct (teardown_err e1); [injection H as <- _ _; exact H1|].
+    destruct (teardown_objects c idw w1 ow ps (alldone && d)) as [[w2 e2] r2] eqn:E2. injection H as <- _ _.
+    eapply no_gain_trans; [exact H1|eapply IH; eauto].
+  Qed.
+
+  Lemma rec_objs_no_gain id ow prev ps : forall w acc failed w' evs r,
+    reconcile_objects c idw w ow prev ps acc failed = (w', evs, r) -> other id (ow_id ow) -> no_gain id (w_store w) (w_store w').
+  Proof.
+    induction ps as [|p ps IH]; intros w acc failed w' evs r H Ho; cbn in H; [injection H as <- _ _; apply no_gain_refl|].
+    destruct (reconcile_object c idw w ow prev p) as [[w1 e1] r1] eqn:E1.
+    pose proof (rec_obj_no_gain force id _ _ _ _ _ _ _ E1 Ho) as H1.
+    destruct r1 as [o| |e].
+    - destruct (reconcile_objects c idw w1 ow prev ps _ _) as [[w2 e2] r2] eqn:E2. injection H as <- _ _.
+      eapply no_gain_trans; [exact H1|eapply IH; eauto].
+    - destruct (reconcile_objects c idw w1 ow prev ps _ _) as [[w2 e2] r2] eqn:E2. injection H as <- _ _.
+      eapply no_gain_trans; [exact H1|eapply IH; eauto].
+    - injection H as <- _ _. exact H1.
+  Qed.
+
+  Lemma rec_phase_no_gain id w ow prev cl ps w' evs r :
+    reconcile_phase c idw w ow prev cl ps = (w', evs, r) -> other id (ow_id ow) -> no_gain id (w_store w) (w_store w').
+  Proof.
+    unfold reconcile_phase. destruct (flat_map _ ps); [|intros H; injection H as <- _ _; intros; apply no_gain_refl].
+    apply rec_objs_no_gain.
+  Qed.
+
+  (** The phase loop of an ObjectSet (local phases through the phase reconciler, delegated ones only touch phase objects). *)
+  Lemma rpm_no_gain id s ow prev phs : forall sw acc rem sw' evs rem' r,
+    reconcile_phases_m force sw s ow prev phs acc rem = (sw', evs, rem', r) -> other id (ow_id ow) ->
+    no_gain id (w_store (sw_w sw)) (w_store (sw_w sw')).
+  Proof.
+    induction phs as [|ph rest IH]; intros sw acc rem sw' evs rem' r H Ho.
+    - cbn in H. injection H as <- _ _ _. apply no_gain_refl.
+    - rewrite rpm_cons in H. destruct (ph_class ph).
+      + destruct (remote_reconcile sw s ph rem) as [[[sw1 e1] rem1] r1] eqn:E1.
+        destruct (remote_reconcile_inv _ _ _ _ _ _ _ _ E1) as (Hst & _).
+        destruct r1 as [|active failed]; [injection H as <- _ _ _; rewrite Hst; apply no_gain_refl|].
+        destruct failed; [injection H as <- _ _ _; rewrite Hst; apply no_gain_refl|].
+        destruct (reconcile_phases_m force sw1 s ow prev rest _ rem1) as [[[sw2 e2] rem2] r2] eqn:E2. injection H as <- _ _ _.
+        rewrite <- Hst. eapply IH; eauto.
+      + destruct (reconcile_phase _ idw (sw_w sw) ow prev false (ph_objects ph)) as [[w1 e1] r1] eqn:E1.
+        pose proof (rec_phase_no_gain id _ _ _ _ _ _ _ _ E1 Ho) as H1.
+        destruct r1 as [e|vs|actual failed]; try (injection H as <- _ _ _; exact H1).
+        destruct failed; [|injection H as <- _ _ _; exact H1]. cbv zeta in H.
+        destruct (reconcile_phases_m force (with_w sw w1) s ow prev rest _ rem) as [[[sw2 e2] rem2] r2] eqn:E2. injection H as <- _ _ _.
+        eapply no_gain_trans; [exact H1|]. exact (IH _ _ _ _ _ _ _ E2 Ho).
+  Qed.
+
+  Lemma tpm_no_gain id s ow rphs : forall sw sw' evs r,
+    teardown_phases_m force sw s ow rphs = (sw', evs, r) -> no_gain id (w_store (sw_w sw)) (w_store (sw_w sw')).
+  Proof.
+    induction rphs as [|ph rest IH]; intros sw sw' evs r H.
+    - cbn in H. injection H as <- _ _. apply no_gain_refl.
+    - rewrite tpm_cons in H. destruct (td_step force sw s ow ph) as [[sw1 e1] r1] eqn:E1.
+      assert (H1 : no_gain id (w_store (sw_w sw)) (w_store (sw_w sw1))).
+      { unfold td_step in E1. destruct (ph_class ph).
+        - destruct (remote_teardown_inv _ _ _ _ _ _ E1) as (-> & _). apply no_gain_refl.
+        - destruct (teardown_phase _ idw (sw_w sw) ow (ph_objects ph)) as [[w1 e'] r'] eqn:Et. injection E1 as <- _ _.
+          unfold teardown_phase in Et. exact (td_objs_no_gain id _ _ _ _ _ _ _ Et). }
+      destruct r1 as [|[|]]; try (injection H as <- _ _; exact H1).
+      destruct (teardown_phases_m force sw1 s ow rest) as [[sw2 e2] r2] eqn:E2. injection H as <- _ _.
+      eapply no_gain_trans; [exact H1|eapply IH; eauto].
+  Qed.
+End TeardownLevel.
+
+Section SetLevel.
+  Variable force : bool.
+
+  (** A pass of the ObjectSet controller: nobody gains control of an object, except the ObjectSet of the pass itself
+      when it is active and not paused. *)
+  Lemma set_pass_no_gain id sw kind ns n sw' evs r :
+    objectset_pass force sw kind ns n = (sw', evs, r) ->
+    (forall mem, find_set (sw_sets sw) kind ns n = Some mem -> is_active mem -> os_life mem <> LPaused -> other id (os_id mem)) ->
+    no_gain id (w_store (sw_w sw)) (w_store (sw_w sw')).
+  Proof.
+    intros H Ho. destruct (find_set (sw_sets sw) kind ns n) as [mem|] eqn:Ef.
+    2:{ unfold objectset_pass in H. rewrite Ef in H. injection H as <- _ _. apply no_gain_refl. }
+    destruct (cond_true (os_conds mem) CArchived) eqn:Ea.
+    { unfold objectset_pass in H. rewrite Ef, Ea in H. injection H as <- _ _. apply no_gain_refl. }
+    destruct (os_deleting mem) eqn:Ed.
+    { pose proof (objectset_pass_going force _ _ _ _ _ _ _ _ Ef (conj Ea (or_introl Ed)) H) as Hd.
+      destruct (deletion_pass_inv force _ _ _ _ _ Hd) as (sw1 & tevs & td & Etd & _ & Hst & _). rewrite Hst.
+      unfold teardown_of in Etd. destruct (os_fin mem); [|injection Etd as <- _ _; apply no_gain_refl].
+      destruct (os_orphan mem); [injection Etd as <- _ _; apply no_gain_refl|]. eapply tpm_no_gain; eauto. }
+    destruct (lifecycle_eqb (os_life mem) LArchived) eqn:El.
+    { assert (Hl : os_life mem = LArchived) by (destruct (os_life mem); try discriminate; reflexivity).
+      pose proof (objectset_pass_going force _ _ _ _ _ _ _ _ Ef (conj Ea (or_intror Hl)) H) as Hd.
+      destruct (deletion_pass_inv force _ _ _ _ _ Hd) as (sw1 & tevs & td & Etd & _ & Hst & _). rewrite Hst.
+      unfold teardown_of in Etd. destruct (os_fin mem); [|injection Etd as <- _ _; apply no_gain_refl].
+      destruct (os_orphan mem); [injection Etd as <- _ _; apply no_gain_refl|]. eapply tpm_no_gain; eauto. }
+    assert (Hact : is_active mem).
+    { split; [exact Ea|]. split; [exact Ed|]. intros Hl. rewrite Hl in El. discriminate. }
+    destruct (objectset_pass_active force _ _ _ _ _ _ _ _ Ef Hact H) as [(Hst & _)|Hr].
+    - rewrite Hst. apply no_gain_refl.
+    - destruct Hr as (mem1 & sw1 & sw2 & pevs & rem & pr & pre0 & Hs & Hw0 & _ & _ & _ & Hrp & Hw2 & _).
+      rewrite Hw2, <- Hw0.
+      destruct (lifecycle_eqb (os_life mem) LPaused) eqn:Ep.
+      + assert (Hpa : ow_paused (as_owner mem1) = true).
+        { destruct Hs as (_ & _ & Hl & _). unfold as_owner. cbn. now rewrite Hl. }
+        destruct (rpm_paused force _ _ _ _ _ _ _ _ _ _ _ Hpa Hrp) as [Hst _]. rewrite Hst. apply no_gain_refl.
+      + eapply rpm_no_gain; [exact Hrp|]. cbn [as_owner ow_id]. destruct Hs as (Hid & _). rewrite Hid.
+        apply (Ho mem eq_refl Hact). intros Hl. rewrite Hl in Ep. discriminate.
+  Qed.
+End SetLevel.
+
+(** ** Steps of whole-system histories *)
+Definition dstore (w : dworld) : store := w_store (dw_w w).
+
+(** The one kind of step in which the ObjectSet [id] may gain control of objects: a pass of its own controller while it is active
+    (not archived, not deleted) and not paused. *)
+Definition own_active_pass (id : oid) (w : dworld) (s : step) : Prop :=
+  match s with
+  | SSet _ n => exists mem, find_set (sw_sets (to_sworld w)) (set_kind w) (oi_ns (d_id (dw_dep w))) n = Some mem /\
+                            is_active mem /\ os_life mem <> LPaused /\ ~ other id (os_id mem)
+  | _ => False
+  end.
+
+Section StepLevel.
+  Variable hash : N -> option N -> N.
+  Variable slices : N -> option (list pobj).
+  Variable sliceaware rev0ok : bool.
+
+  Lemma edit_dep_store w f b : dstore (edit_dep w f b) = dstore w.
+  Proof. unfold edit_dep, dstore. destruct (negb b); reflexivity. Qed.
+
+  Lemma rev_step_store w n : dstore (rev_step w n) = dstore w.
+  Proof.
+    unfold rev_step, dstore. destruct (find_set _ _ _ n) as [mem|] eqn:Ef; [|reflexivity].
+    destruct (find_set_id _ _ _ _ _ Ef) as (Hk & Hns & Hn).
+    assert (Hf : find_set (sw_sets (to_sworld w)) (oi_kind (os_id mem)) (oi_ns (os_id mem)) (oi_name (os_id mem)) = Some mem) by now rewrite Hk, Hns, Hn.
+    destruct (revision_pass (to_sworld w) mem) as [[[sw1 e1] mem1] rr] eqn:Er.
+    destruct (revision_pass_inv _ _ _ _ _ _ Hf Er) as (_ & Hst & _).
+    cbn [to_sworld sw_w] in Hst.
+    destruct rr; try (cbn [of_sworld dw_w]; exact Hst).
+    destruct (update_status sw1 mem1) as [[sw2 m2] ok] eqn:Eu. destruct (update_status_store _ _ _ _ _ Eu) as (Hst2 & _).
+    cbn [of_sworld dw_w]. congruence.
+  Qed.
+
+  Theorem step_no_gain id w s :
+    ~ own_active_pass id w s -> no_gain id (dstore w) (dstore (do_step_sh hash slices sliceaware rev0ok w s)).
+  Proof.
+    intros Hn. destruct s as [dg phs|b|l|stale fault|f n|n|n cs co coset|n|k a]; cbn [do_step_sh].
+    - rewrite edit_dep_store. apply no_gain_refl.
+    - rewrite edit_dep_store. apply no_gain_refl.
+    - rewrite edit_dep_store. apply no_gain_refl.
+    - destruct (dep_pass_sh hash fault slices sliceaware rev0ok stale w) as [[w' evs] r] eqn:Ep.
+      destruct (dep_pass_frame _ _ _ _ _ _ _ _ _ _ Ep) as (_ & _ & _ & _ & Hst & _). unfold dstore. rewrite Hst. apply no_gain_refl.
+    - destruct (objectset_pass f (to_sworld w) (set_kind w) (oi_ns (d_id (dw_dep w))) n) as [[sw' evs] r] eqn:Ep.
+      unfold dstore. cbn [of_sworld dw_w]. change (dw_w w) with (sw_w (to_sworld w)).
+      eapply set_pass_no_gain; [exact Ep|]. intros mem Hf Ha Hl.
+      unfold other. destruct (same_gkn (ctrl_ref (os_id mem)) id) eqn:E; [|reflexivity]. exfalso. apply Hn. cbn. exists mem.
+      split; [exact Hf|]. split; [exact Ha|]. split; [exact Hl|]. unfold other. rewrite E. discriminate.
+    - rewrite rev_step_store. apply no_gain_refl.
+    - destruct (find_dset (dw_sets w) n) as [x|]; [|apply no_gain_refl].
+      destruct (_ && _); [apply no_gain_refl|]. unfold dstore, with_sets. cbn. apply no_gain_refl.
+    - destruct (find_dset (dw_sets w) n) as [x|]; [|apply no_gain_refl].
+      destruct (os_deleting (ds_set x)); apply no_gain_refl.
+    - destruct (lookup k (w_store (dw_w w))) as [o|] eqn:El; [|apply no_gain_refl].
+      destruct (o_avail o =? a); [apply no_gain_refl|]. unfold dstore, with_sets. cbn [dw_w w_store].
+      intros k' o' Hl Hc. destruct (key_dec k' k) as [->|Hne].
+      + rewrite lookup_upsert_same in Hl. injection Hl as <-. exists o. split; [exact El|exact Hc].
+      + rewrite (lookup_upsert_other _ _ _ _ Hne) in Hl. eauto.
+  Qed.
+End StepLevel.
+
+(** * Part 3: the handover, relative to the archive decision *)
+(** Teardown removes only what the torn-down owner controls: an object it does not control stays (and stays not controlled by it). *)
+Definition kept (id : oid) (k : okey) (s s' : store) : Prop :=
+  forall o, lookup k s = Some o -> is_controller Native id o = false -> exists o', lookup k s' = Some o' /\ is_controller Native id o' = false.
+
+Lemma kept_refl id k s : kept id k s s.
+Proof. intros o H1 H2. eauto. Qed.
+Lemma kept_trans id k a b c : kept id k a b -> kept id k b c -> kept id k a c.
+Proof. intros H1 H2 o Hl Hc. destruct (H1 _ Hl Hc) as (o1 & Hl1 & Hc1). eauto. Qed.
+
+Section TeardownKeeps.
+  Variable force : bool.
+  Let c : cfg := {| c_flavor := FObjectSet; c_force := force |}.
+
+  Lemma td_obj_kept k w ow p w' evs d :
+    teardown_object c idw w ow p = (w', evs, d) -> kept (ow_id ow) k (w_store w) (w_store w').
+  Proof.
+    intros H o Hl Hc.
+    destruct (key_dec k (key_of ow p)) as [->|Hne]; [|rewrite <- (td_obj_frame c _ _ _ _ _ _ k H Hne) in Hl; eauto].
+    unfold teardown_object in H. fold (key_of ow p) in H. cbn [c c_flavor flavor_strat] in H.
+    destruct (preflight_obj FObjectSet ow false p); [|injection H as <- _ _; eauto].
+    unfold api_get at 1 in H. rewrite Hl, Hc in H. cbn [negb] in H.
+    destruct (is_owner Native (ow_id ow) o); cbn [negb] in H; [|injection H as <- _ _; eauto].
+    unfold idw in H. destruct (api_release_patch w (key_of ow p) (remove_owner_l (ow_id ow) (o_owners o))) as [[w2 [o2|]]|] eqn:Er.
+    - injection H as <- _ _. destruct (api_release_spec _ _ _ _ _ Er) as (cur & Hcur & Hl2 & _ & _ & Hown & _).
+      exists o2. split; [exact Hl2|]. destruct (is_controller Native (ow_id ow) o2) eqn:E2; [|reflexivity].
+      unfold is_controller in E2, Hc. cbn [refs] in E2, Hc. rewrite Hown in E2. apply remove_owner_sub in E2. congruence.
+    - injection H as <- _ _. rewrite (api_release_invalid _ _ _ _ Er). eauto.
+    - injection H as <- _ _. eauto.
+  Qed.
+
+  Lemma td_objs_kept k ow ps : forall w alldone w' evs r,
+    teardown_objects c idw w ow ps alldone = (w', evs, r) -> kept (ow_id ow) k (w_store w) (w_store w').
+  Proof.
+    induction ps as [|p ps IH]; intros w alldone w' evs r H; cbn in H; [injection H as <- _ _; apply kept_refl|].
+    destruct (teardown_object c idw w ow p) as [[w1 e1] d] eqn:E1.
+    pose proof (td_obj_kept k _ _ _ _ _ _ E1) as H1.
+    destruct (teardown_err e1); [injection H as <- _ _; exact H1|].
+    destruct (teardown_objects c idw w1 ow ps (alldone && d)) as [[w2 e2] r2] eqn:E2. injection H as <- _ _.
+    eapply kept_trans; [exact H1|eapply IH; eauto].
+  Qed.
+
+  Lemma tpm_kept k s ow rphs : forall sw sw' evs r,
+    teardown_phases_m force sw s ow rphs = (sw', evs, r) -> kept (ow_id ow) k (w_store (sw_w sw)) (w_store (sw_w sw')).
+  Proof.
+    induction rphs as [|ph rest IH]; intros sw sw' evs r H.
+    - cbn in H. injection H as <- _ _. apply kept_refl.
+    - rewrite tpm_cons in H. destruct (td_step force sw s ow ph) as [[sw1 e1] r1] eqn:E1.
+      assert (H1 : kept (ow_id ow) k (w_store (sw_w sw)) (w_store (sw_w sw1))).
+      { unfold td_step in E1. destruct (ph_class ph).
+        - destruct (remote_teardown_inv _ _ _ _ _ _ E1) as (-> & _). apply kept_refl.
+        - destruct (teardown_phase _ idw (sw_w sw) ow (ph_objects ph)) as [[w1 e'] r'] eqn:Et. injection E1 as <- _ _.
+          unfold teardown_phase in Et. exact (td_objs_kept k _ _ _ _ _ _ _ Et). }
+      destruct r1 as [|[|]]; try (injection H as <- _ _; exact H1).
+      destruct (teardown_phases_m force sw1 s ow rest) as [[sw2 e2] r2] eqn:E2. injection H as <- _ _.
+      eapply kept_trans; [exact H1|eapply IH; eauto].
+  Qed.
+
+  (** A pass of the ObjectSet controller for an archived or deleted ObjectSet. *)
+  Lemma going_pass_kept k sw kind ns n mem sw' evs r :
+    find_set (sw_sets sw) kind ns n = Some mem -> (os_deleting mem = true \/ os_life mem = LArchived) ->
+    objectset_pass force sw kind ns n = (sw', evs, r) -> kept (os_id mem) k (w_store (sw_w sw)) (w_store (sw_w sw')).
+  Proof.
+    intros Ef Hg H. destruct (cond_true (os_conds mem) CArchived) eqn:Ea.
+    { unfold objectset_pass in H. rewrite Ef, Ea in H. injection H as <- _ _. apply kept_refl. }
+    pose proof (objectset_pass_going force _ _ _ _ _ _ _ _ Ef (conj Ea Hg) H) as Hd.
+    destruct (deletion_pass_inv force _ _ _ _ _ Hd) as (sw1 & tevs & td & Etd & _ & Hst & _). rewrite Hst.
+    unfold teardown_of in Etd. destruct (os_fin mem); [|injection Etd as <- _ _; apply kept_refl].
+    destruct (os_orphan mem); [injection Etd as <- _ _; apply kept_refl|].
+    exact (tpm_kept k _ _ _ _ _ _ _ Etd).
+  Qed.
+End TeardownKeeps.
+
+Section Handover.
+  Variable hash : N -> option N -> N.
+  Variable slices : N -> option (list pobj).
+
+  (** Between the archive decision and the teardown no ObjectSet with the archived revision's kind and name runs an active,
+      unpaused pass (the revision itself is archived; this only excludes a re-created ObjectSet of the same name). *)
+  Fixpoint quiet_run (id : oid) (w : dworld) (h : list step) : Prop :=
+    match h with
+    | [] => True
+    | s :: t => ~ own_active_pass id w s /\ quiet_run id (do_step hash slices w s) t
+    end.
+
+  Lemma run_no_gain id h : forall w, quiet_run id w h -> no_gain id (dstore w) (dstore (run hash slices w h)).
+  Proof.
+    induction h as [|s t IH]; intros w Hq; [apply no_gain_refl|]. destruct Hq as [Hs Ht].
+    eapply no_gain_trans; [exact (step_no_gain hash slices true true id w s Hs)|]. exact (IH _ Ht).
+  Qed.
+
+  Lemma next_in_cons_ne n b t : t <> [] -> (sname b =? n) = false -> next_in n (b :: t) = next_in n t.
+  Proof. destruct t as [|x t]; [intros H; now elim H|]. intros _ H. cbn. now rewrite H. Qed.
+
+  Lemma next_in_split n L : forall l1 r nx l3, NoDup (map sname L) -> L = l1 ++ r :: nx :: l3 -> sname r = n -> next_in n L = Some nx.
+  Proof.
+    induction L as [|a L IH]; intros l1 r nx l3 Hnd E Hn; [destruct l1; discriminate|].
+    destruct l1 as [|b l1]; cbn in E; injection E as -> ->.
+    - cbn. now rewrite Hn, N.eqb_refl.
+    - cbn in Hnd. inversion Hnd as [|? ? Hnotin Hnd']; subst.
+      assert (Hne : (sname b =? sname r) = false).
+      { apply N.eqb_neq. intros Heq. apply Hnotin. rewrite Heq, map_app. apply in_or_app. right. now left. }
+      rewrite next_in_cons_ne; [|destruct l1; discriminate|exact Hne]. eapply IH; eauto.
+  Qed.
+
+  (** The handover clause, relative to the archive decision. If, when revision [n] is archived,
+      (a) no newer listed revision reports Available (the decision rests on controllerOf, not on another revision's report), and
+      (b) the stored status.controllerOf of [n] lists every object [n] controls,
+      then no later pass of the ObjectSet controller for the archived (or deleted) [n] removes an object that the revision
+      listed right after [n] at the time of the decision contains (inline or in its ObjectSlices). *)
+  Theorem handover_relative fault stale w w1 evs res n pbp ur r :
+    NoDup (map sname (dw_sets w)) ->
+    dep_pass hash fault slices stale w = (w1, evs, res) -> In (DUpdate n LArchived pbp ur) evs ->
+    find_dset (dw_sets w) n = Some r ->
+    (forall s, In s (listed stale w) -> (srev r < srev s)%Z -> is_available s = false) ->
+    (forall k, controls (os_id (ds_set r)) w k -> In k (os_ctrlof (ds_set r))) ->
+    exists nx, next_in n (listed stale w) = Some nx /\ (srev r < srev nx)%Z /\
+      forall h2, quiet_run (os_id (ds_set r)) w1 h2 ->
+        let w2 := run hash slices w1 h2 in
+        forall f mem k,
+          find_set (sw_sets (to_sworld w2)) (set_kind w2) (oi_ns (d_id (dw_dep w2))) n = Some mem -> os_id mem = os_id (ds_set r) ->
+          (os_deleting mem = true \/ os_life mem = LArchived) ->
+          In k (full_objects slices nx) -> stored w2 k <> None -> stored (do_step hash slices w2 (SSet f n)) k <> None.
+  Proof.
+    intros Hnd Hp Hi Hfr Hnoav Hcomplete.
+    destruct (archive_sound_now _ _ _ _ _ _ _ _ _ _ _ Hnd Hp Hi) as (l1 & r' & l2 & HL & Hn' & Hne & Hsp & Hna & Hcase).
+    assert (Hr' : r' = r).
+    { assert (Hin' : In r' (dw_sets w)) by (apply (listed_in stale w); rewrite HL; apply in_or_app; right; now left).
+      pose proof (find_some _ _ Hfr) as [Hinr Hnr]. apply N.eqb_eq in Hnr.
+      eapply NoDup_map_eq; eauto. congruence. }
+    subst r'. destruct Hcase as [(s & Hs & Hav & Hlt)|(Hnav & nx & l3 & act & -> & Hlt & Hact & _ & Hdisj)].
+    { exfalso. rewrite (Hnoav s) in Hav; [discriminate| |exact Hlt]. rewrite HL. apply in_or_app. right. now right. }
+    exists nx. split; [eapply next_in_split; [apply listed_nodup; exact Hnd|exact HL|exact Hn']|]. split; [exact Hlt|].
+    intros h2 Hq w2 f mem k Hfm Hid Hg Hk Hex.
+    assert (Hact' : act = os_ctrlof (ds_set r)).
+    { unfold active_objects in Hact. rewrite Hna in Hact. destruct (_ && _); [discriminate|]. now injection Hact as <-. }
+    destruct (stored w2 k) as [o|] eqn:Eo; [|now elim Hex]. clear Hex.
+    destruct (is_controller Native (os_id mem) o) eqn:Ec.
+    - (* controlled by the archived revision now: it was at the decision, hence reported, hence not an object of nx *)
+      exfalso. rewrite Hid in Ec.
+      destruct (run_no_gain _ h2 w1 Hq k o Eo Ec) as (o1 & Hl1 & Hc1).
+      destruct (dep_pass_frame _ _ _ _ _ _ _ _ _ _ Hp) as (_ & _ & _ & _ & Hst & _).
+      unfold dstore in Hl1. rewrite Hst in Hl1.
+      apply (Hdisj k); [|exact Hk]. rewrite Hact'. apply Hcomplete. exists o1. split; assumption.
+    - cbn [do_step do_step_sh].
+      destruct (objectset_pass f (to_sworld w2) (set_kind w2) (oi_ns (d_id (dw_dep w2))) n) as [[sw' evs'] r'] eqn:Ep.
+      destruct (going_pass_kept f k _ _ _ _ _ _ _ _ Hfm Hg Ep o Eo Ec) as (o' & Hl' & _).
+      unfold stored. cbn [of_sworld dw_w]. rewrite Hl'. discriminate.
+  Qed.
+End Handover.
+
+(** ** The hypotheses of [handover_relative] as boolean tests on the history *)
+Definition own_active_b (id : oid) (w : dworld) (s : step) : bool :=
+  match s with
+  | SSet _ n =>
+      match find_set (sw_sets (to_sworld w)) (set_kind w) (oi_ns (d_id (dw_dep w))) n with
+      | Some mem => negb (cond_true (os_conds mem) CArchived) && negb (os_deleting mem) && negb (lifecycle_eqb (os_life mem) LArchived) &&
+                    negb (lifecycle_eqb (os_life mem) LPaused) && same_gkn (ctrl_ref (os_id mem)) id
+      | None => false
+      end
+  | _ => false
+  end.
+
+Lemma own_active_b_spec id w s : own_active_b id w s = false -> ~ own_active_pass id w s.
+Proof.
+  destruct s; cbn; try tauto. intros Hb (mem & Hf & (Ha & Hd & Hl) & Hp & Ho). rewrite Hf, Ha, Hd in Hb. cbn in Hb.
+  assert (lifecycle_eqb (os_life mem) LArchived = false) as E1 by (destruct (os_life mem); try reflexivity; congruence).
+  assert (lifecycle_eqb (os_life mem) LPaused = false) as E2 by (destruct (os_life mem); try reflexivity; congruence).
+  rewrite E1, E2 in Hb. cbn in Hb. apply Ho. exact Hb.
+Qed.
+
+Section Booleans.
+  Variable hash : N -> option N -> N.
+  Variable slices : N -> option (list pobj).
+
+  Fixpoint quiet_run_b (id : oid) (w : dworld) (h : list step) : bool :=
+    match h with
+    | [] => true
+    | s :: t => negb (own_active_b id w s) && quiet_run_b id (do_step hash slices w s) t
+    end.
+
+  Lemma quiet_run_b_spec id h : forall w, quiet_run_b id w h = true -> quiet_run hash slices id w h.
+  Proof.
+    induction h as [|s t IH]; intros w H; [exact I|]. cbn in H. apply andb_true_iff in H. destruct H as [H1 H2].
+    split; [apply own_active_b_spec; now apply negb_true_iff|now apply IH].
+  Qed.
+
+  (** (a) no newer listed revision reports Available *)
+  Definition no_newer_available_b (L : list dset) (r : dset) : bool :=
+    forallb (fun s => negb (srev r <? srev s)%Z || negb (is_available s)) L.
+  Lemma no_newer_available_b_spec L r :
+    no_newer_available_b L r = true -> forall s, In s L -> (srev r < srev s)%Z -> is_available s = false.
+  Proof.
+    unfold no_newer_available_b. rewrite forallb_forall. intros H s Hs Hlt. specialize (H s Hs).
+    apply Z.ltb_lt in Hlt. rewrite Hlt in H. cbn in H. now apply negb_true_iff.
+  Qed.
+
+  (** (b) status.controllerOf lists every stored object the ObjectSet controls *)
+  Definition ctrl_complete_b (w : dworld) (r : dset) : bool :=
+    forallb (fun ko => negb (is_controller Native (os_id (ds_set r)) (snd ko)) || existsb (okey_eqb (fst ko)) (os_ctrlof (ds_set r)))
+            (w_store (dw_w w)).
+
+  Lemma lookup_in_store k (s : store) o : lookup k s = Some o -> In (k, o) s.
+  Proof.
+    induction s as [|[k' o'] s IH]; cbn; [discriminate|]. destruct (okey_eqb k k') eqn:E.
+    - intros H. injection H as <-. apply okey_eqb_spec in E. subst. now left.
+    - intros H. right. now apply IH.
+  Qed.
+
+  Lemma ctrl_complete_b_spec w r :
+    ctrl_complete_b w r = true -> forall k, controls (os_id (ds_set r)) w k -> In k (os_ctrlof (ds_set r)).
+  Proof.
+    unfold ctrl_complete_b. rewrite forallb_forall. intros H k (o & Hl & Hc). specialize (H (k, o) (lookup_in_store _ _ _ Hl)).
+    cbn [fst snd] in H. rewrite Hc in H. cbn [negb orb] in H. apply existsb_exists in H. destruct H as (x & Hx & E). apply okey_eqb_spec in E. now subst.
+  Qed.
+End Booleans.
+
+(** The same with the hypotheses as boolean tests. *)
+Theorem handover_sound_partial hash slices fault stale w w1 evs res n pbp ur r :
+  NoDup (map sname (dw_sets w)) ->
+  dep_pass hash fault slices stale w = (w1, evs, res) -> In (DUpdate n LArchived pbp ur) evs ->
+  find_dset (dw_sets w) n = Some r ->
+  no_newer_available_b (listed stale w) r = true ->
+  ctrl_complete_b w r = true ->
+  exists nx, next_in n (listed stale w) = Some nx /\ (srev r < srev nx)%Z /\
+    forall h2, quiet_run_b hash slices (os_id (ds_set r)) w1 h2 = true ->
+      let w2 := run hash slices w1 h2 in
+      forall f mem k,
+        find_set (sw_sets (to_sworld w2)) (set_kind w2) (oi_ns (d_id (dw_dep w2))) n = Some mem -> os_id mem = os_id (ds_set r) ->
+        (os_deleting mem = true \/ os_life mem = LArchived) ->
+        In k (full_objects slices nx) -> stored w2 k <> None -> stored (do_step hash slices w2 (SSet f n)) k <> None.
+Proof.
+  intros Hnd Hp Hi Hf Ha Hc.
+  destruct (handover_relative hash slices fault stale w w1 evs res n pbp ur r Hnd Hp Hi Hf
+              (no_newer_available_b_spec _ _ Ha) (ctrl_complete_b_spec _ _ Hc)) as (nx & H1 & H2 & H3).
+  exists nx. split; [exact H1|]. split; [exact H2|]. intros h2 Hq. apply H3. now apply quiet_run_b_spec.
+Qed.
+
+(** The hypotheses are satisfiable: a broken revision 1 ({Widget a}, probe failing) is replaced by revision 2 ({Widget c}, not yet
+    available); revision 1 reports controllerOf [a], is paused, confirms, and is archived by the controllerOf rule; its teardown
+    (after further passes of revision 2) removes a and leaves c alone. *)
+Section Example.
+  Definition t_a : list phase := [hw_phase 1 [wit_pobj 2 1]].
+  Definition t_c : list phase := [hw_phase 1 [wit_pobj 2 3]].
+  Definition ex_history : list step :=
+    [SDep false None; SSet false 100; SEdit 2 t_c; SDep false None; SSet false 200; SDep false None; SSet false 100].
+  Definition ex_world : dworld := run wit_hash no_slices (hw_world 1 t_a) ex_history.
+  Definition ex_after : list step := [SSet false 200; SMember (hw_key 2 3) 2; SSet false 200].
+
+  Example handover_premises_satisfiable :
+    exists w1 evs res r,
+      NoDup (map sname (dw_sets ex_world)) /\
+      dep_pass wit_hash None no_slices false ex_world = (w1, evs, res) /\ In (DUpdate 100 LArchived false WOk) evs /\
+      find_dset (dw_sets ex_world) 100 = Some r /\
+      no_newer_available_b (listed false ex_world) r = true /\ ctrl_complete_b ex_world r = true /\
+      quiet_run_b wit_hash no_slices (os_id (ds_set r)) w1 ex_after = true /\
+      (* the teardown that follows does remove an object, and not the one revision 2 lists *)
+      stored (run wit_hash no_slices w1 ex_after) (hw_key 2 1) <> None /\
+      stored (do_step wit_hash no_slices (run wit_hash no_slices w1 ex_after) (SSet false 100)) (hw_key 2 1) = None /\
+      stored (do_step wit_hash no_slices (run wit_hash no_slices w1 ex_after) (SSet false 100)) (hw_key 2 3) <> None.
+  Proof.
+    destruct (dep_pass wit_hash None no_slices false ex_world) as [[w1 evs] res] eqn:Ep.
+    exists w1, evs, res, (nth 0 (dw_sets ex_world) wit_old).
+    assert (Ew : w1 = fst (fst (dep_pass wit_hash None no_slices false ex_world))) by now rewrite Ep.
+    assert (Ee : evs = snd (fst (dep_pass wit_hash None no_slices false ex_world))) by now rewrite Ep.
+    split. { vm_compute. repeat constructor; cbn; intuition discriminate. }
+    split; [reflexivity|]. subst w1 evs. clear Ep.
+    split; [vm_compute; auto 6|]. split; [reflexivity|]. split; [reflexivity|]. split; [reflexivity|]. split; [reflexivity|].
+    split; [vm_compute; intros H; discriminate H|]. split; [reflexivity|]. vm_compute; intros H; discriminate H.
+  Qed.
+End Example.
